@@ -22,7 +22,7 @@ CLAIMED = {
              "independent of what the mutator modifies or has a registered transport lemma (C04/C07). Witness "
              "theorems show staleness without verify-first or with a dependent key (five such defects were found "
              "and repaired). Tied to the code by differential histories: ~55 properties + ray / nearest answers "
-             "compared with a freshly built mesh after every step.",
+             "compared with a freshly built mesh after every step. The generated mutator table is also validated at run time: after every cache-keeping library call the set of cached keys that survived is compared with what the table allows that mutator to keep.",
         note="Trusted: Lean kernel (+propext/Classical.choice/Quot.sound), hash injectivity, ast read sets as an "
              "over-approximation of dependencies, the registered transport pairs (normals under similarity: "
              "C04_similarity_normals; vertex-normal weights under similarity assumed). The cached functions "
@@ -195,7 +195,7 @@ CLAIMED = {
              "C03, capped halves add up in volume. Tied to the code by a differential run: meshes with dyadic "
              "coordinates cut by integer planes through vertices / along edges / in general position, several "
              "planes, face subsets, every cap engine; endpoints on plane and surface, closed loops, areas and "
-             "volumes add up, convex halves watertight, multiplane = repeated single plane.",
+             "volumes add up, convex halves watertight, multiplane = repeated single plane. The three handlers of mesh_plane and the quad / corner cut cases of slice_faces_plane (with their index rotation and quad split) are followed by an executable rational model (sectionTri, sliceTri): for every triangle, plane and tolerance the emitted endpoints are on the plane up to the sign tolerance and on the triangle's boundary, kept pieces are on the positive side, wound like the triangle, and the pieces of the two opposite slices tile the triangle (C11_rat_*); the driver evaluates the model on every face of every section / slice case and the result is compared face by face / triangle by triangle with the code.",
         note="Trusted: Lean kernel (+propext/Classical.choice/Quot.sound), float64 on dyadic inputs, shapely / "
              "earcut / triangle (polygon assembly and cap triangulation are judged by their outputs, not "
              "modelled), nearest.on_surface as surface membership test. Partial: loop assembly and capping are "
